@@ -22,8 +22,8 @@ ASSUMPTIONS = [
 ]
 BUDGET = {"quick": (4, 600), "thorough": (16, 20000)}
 ENUM_SPACE = {
-    "quick": "all triple lists of length <= 2 over wells {A,B}x{01,02,03} (distinct volumes per slot) x {source,destination}; optimize_partition_by: 4 labware combinations x {auto,source,destination} + 8 invalid names",
-    "thorough": "all triple lists of length <= 3 over wells {A,B}x{01,02,03} (distinct volumes per slot) x {source,destination}; optimize_partition_by: 4 labware combinations x {auto,source,destination} + 8 invalid names",
+    "quick": "all triple lists of length <= 2 over wells {A,B}x{01,02,03} (distinct volumes per slot) x {source,destination}; optimize_partition_by: 4 labware combinations x {auto,source,destination} + 8 invalid names, and x 5 plate / 4 trough geometries (incl. 1x1, single-row, single-column)",
+    "thorough": "all triple lists of length <= 3 over wells {A,B}x{01,02,03} (distinct volumes per slot) x {source,destination}; optimize_partition_by: 4 labware combinations x {auto,source,destination} + 8 invalid names, and x 5 plate / 4 trough geometries (incl. 1x1, single-row, single-column)",
 }
 KNOWN_KINDS = {}
 
@@ -40,10 +40,15 @@ def enumerate_cases(tier):
         for n in range(1, maxlen + 1):
             for combo in itertools.product(pairs, repeat=n):
                 yield {"kind": "part", "mode": mode, "triples": [[s, d, 10 * (i + 1)] for i, (s, d) in enumerate(combo)]}
+    geoms = {"plate": [[2, 3], [1, 1], [1, 8], [8, 1], [8, 12]], "trough": [[4, 2], [1, 1], [1, 3], [8, 1]]}
     for src in ("plate", "trough"):
         for dst in ("plate", "trough"):
             for mode in ["auto", "source", "destination"] + INVALID_MODES:
                 yield {"kind": "opt", "src": src, "dst": dst, "mode": mode}
+            for gs in geoms[src]:
+                for gd in geoms[dst]:
+                    for mode in ("auto", "source", "destination"):
+                        yield {"kind": "opt", "src": src, "dst": dst, "mode": mode, "gsrc": gs, "gdst": gd}
     for mode in INVALID_MODES:
         yield {"kind": "part", "mode": mode, "triples": [["A01", "B02", 5]]}
 
@@ -73,12 +78,13 @@ def check_case(case) -> Obs:
     if case["kind"] == "opt":
         import robotools
 
-        def mk(kind, name):
+        def mk(kind, name, geom):
+            r, c = geom or ([4, 2] if kind == "trough" else [2, 3])
             if kind == "trough":
-                return robotools.Trough(name, 4, 2, min_volume=0, max_volume=100)
-            return robotools.Labware(name, 2, 3, min_volume=0, max_volume=100)
+                return robotools.Trough(name, r, c, min_volume=0, max_volume=100)
+            return robotools.Labware(name, r, c, min_volume=0, max_volume=100)
 
-        src, dst = mk(case["src"], "S"), mk(case["dst"], "D")
+        src, dst = mk(case["src"], "S", case.get("gsrc")), mk(case["dst"], "D", case.get("gdst"))
         mode = case["mode"]
         obs.cls("opt")
         try:
